@@ -79,9 +79,13 @@ def view(iso, ns, with_data=True, max_data=8 << 20, expect=None):
                     length = sink.pos
                 elif length <= max_data or ns != 'udf':
                     buf = io.BytesIO()
+                    # (a third of the extractions go into a stream that already holds something:
+                    # several members extracted one after the other into one file)
+                    lead = (len(p) * 131 + length) % 700 if (len(p) + length) % 3 == 0 else 0
+                    buf.write(b'\xa7' * lead)
                     try:
                         iso.get_file_from_iso_fp(buf, **{key: p})
-                        data = buf.getvalue()
+                        data = buf.getvalue()[lead:]
                         length = len(data)
                     except Exception as e:  # recorded, compared as a mismatch
                         data = ('error', type(e).__name__, str(e))
